@@ -42,25 +42,28 @@ fn main() {
         };
         let budget = std::time::Duration::from_secs_f64((t_ref * 3000.0).clamp(20.0, 600.0));
         // layered graphs: `layers` layers of `width` functions, every function connected to every function of the next layer
-        for (width, layers) in [(2usize, 8usize), (3, 8), (3, 12), (4, 12), (2, 24), (3, 18), (4, 14), (2, 28)] {
+        // ... each in two id orders: functions declared in dependency order, and leaves first (every edge from a higher to a lower id)
+        for (width, layers, leaves_first) in [(2usize, 8usize, false), (3, 8, false), (3, 12, false), (4, 12, false), (2, 24, false), (3, 18, false), (4, 14, false), (2, 28, false),
+                                              (3, 8, true), (4, 8, true), (4, 12, true), (3, 18, true), (4, 14, true), (2, 28, true)] {
             let n = width * layers;
             let (tx, rx) = std::sync::mpsc::channel();
             let t0 = std::time::Instant::now();
             std::thread::spawn(move || {
                 let mut b = FnGraphBuilder::new();
                 let ids: Vec<_> = (0..n).map(|i| b.add_fn(Acc { id: i, reads: vec![], writes: vec![] })).collect();
-                for l in 0..layers - 1 { for a in 0..width { for c in 0..width { b.add_logic_edge(ids[l * width + a], ids[(l + 1) * width + c]).unwrap(); } } }
+                let at = |i: usize| if leaves_first { n - 1 - i } else { i };
+                for l in 0..layers - 1 { for a in 0..width { for c in 0..width { b.add_logic_edge(ids[at(l * width + a)], ids[at((l + 1) * width + c)]).unwrap(); } } }
                 fn_graph::verif_hooks::rank_calc_pops_reset();
                 let g = b.build();
                 let _ = tx.send((fn_graph::verif_hooks::rank_calc_pops(), g.ranks().iter().map(|r| r.0).collect::<Vec<_>>()));
             });
             match rx.recv_timeout(budget) {
                 Ok((pops, ranks)) => {
-                    if pops > n * n + n { println!("VIOLATION: layered {width}x{layers}: {pops} pops > n*n+n"); std::process::exit(1); }
-                    if ranks != (0..n).map(|i| i / width).collect::<Vec<_>>() { println!("VIOLATION: layered {width}x{layers}: ranks {ranks:?}"); std::process::exit(1); }
+                    if pops > n * n + n { println!("VIOLATION: layered {width}x{layers} (leaves declared first: {leaves_first}): RankCalc::calc popped its queue {pops} times > n*n+n = {}", n * n + n); std::process::exit(1); }
+                    if ranks != (0..n).map(|i| if leaves_first { (n - 1 - i) / width } else { i / width }).collect::<Vec<_>>() { println!("VIOLATION: layered {width}x{layers}: ranks {ranks:?}"); std::process::exit(1); }
                 }
                 Err(_) => {
-                    println!("VIOLATION: build() of the layered graph {width}x{layers} ({n} functions, {} edges) did not finish within the budget of {budget:?} (elapsed {:?}): its work is not polynomial in functions and edges", (layers - 1) * width * width, t0.elapsed());
+                    println!("VIOLATION: build() of the layered graph {width}x{layers} ({n} functions, {} edges) did not finish within the budget of {budget:?} (elapsed {:?}; leaves declared first: {leaves_first}): its work is not polynomial in functions and edges", (layers - 1) * width * width, t0.elapsed());
                     std::process::exit(1);
                 }
             }
